@@ -52,7 +52,7 @@ def run_slab(ctx):
             out.write(open(part).read())
         os.remove(part)
     ctx.cov["configurations"] = len(plans)
-    ctx.validate("Slab", "SlabTrace", "SlabTrace.cfg", tp, "slab sequential histories", keyfn=key_for(pid))
+    ctx.validate("Slab", "SlabTrace", "SlabTrace.cfg", tp, "slab sequential histories", keyfn=key_for(pid), env={"OWN": ctx.pid})
     # concurrent scripts under random schedules
     tpc = os.path.join(ctx.work, "slab_conc.trace")
     open(tpc, "w").close()
@@ -65,7 +65,7 @@ def run_slab(ctx):
         with open(tpc, "a") as out:
             out.write(open(part).read())
         os.remove(part)
-    ctx.validate("Slab", "SlabTrace", "SlabTrace.cfg", tpc, "slab concurrent random schedules", keyfn=key_for(pid))
+    ctx.validate("Slab", "SlabTrace", "SlabTrace.cfg", tpc, "slab concurrent random schedules", keyfn=key_for(pid), env={"OWN": ctx.pid})
     model_stage(ctx, binary)
     if pid == "C05":
         tsan_witness(ctx)
@@ -163,5 +163,5 @@ def model_stage(ctx, binary):
         tp = os.path.join(ctx.work, cfgname + ".trace")
         core.run_histories(binary, ["--geom", "tiny"], hp, tp, len(items))
         ctx.cov.setdefault("tours", []).append({"config": cfgname, "transitions": len(hists), "replayed": len(items)})
-        ctx.validate("Slab", "SlabTrace", "SlabTrace.cfg", tp, "slab TLC behaviours " + cfgname, keyfn=key_for(pid))
+        ctx.validate("Slab", "SlabTrace", "SlabTrace.cfg", tp, "slab TLC behaviours " + cfgname, keyfn=key_for(pid), env={"OWN": ctx.pid})
     ctx.model("Slab", "SlabPool", "MCSlab_live.cfg", workers=8, xmx="8g")
